@@ -122,6 +122,20 @@ func compactToTree(v any) (*Tree, error) {
 						var key *Tree
 						if strings.HasPrefix(kk, "s") {
 							key = tS(kk[1:])
+						} else if strings.HasPrefix(kk, "n") {
+							key = &Tree{K: "fspecial", S: kk[1:]}
+						} else if strings.HasPrefix(kk, "y") {
+							key = &Tree{K: "bytes", S: kk[1:]}
+						} else if kk == "z" {
+							key = tNil()
+						} else if strings.HasPrefix(kk, "b") {
+							key = tB(kk[1:] == "TRUE")
+						} else if strings.HasPrefix(kk, "f") {
+							h, err := strconv.ParseInt(kk[1:], 10, 64)
+							if err != nil {
+								return nil, err
+							}
+							key = tF(h)
 						} else if strings.HasPrefix(kk, "i") {
 							i, err := strconv.ParseInt(kk[1:], 10, 64)
 							if err != nil {
@@ -156,8 +170,8 @@ func (t *Tree) MarshalJSON() ([]byte, error) {
 		return json.Marshal(map[string]any{"k": "bool", "v": t.B})
 	case "nil":
 		return []byte(`{"k":"nil"}`), nil
-	case "pkgunits":
-		return json.Marshal(map[string]any{"k": "pkgunits", "v": t.S})
+	case "pkgunits", "fspecial", "bytes":
+		return json.Marshal(map[string]any{"k": t.K, "v": t.S})
 	case "list":
 		l := t.L
 		if l == nil {
@@ -185,7 +199,7 @@ func (t *Tree) UnmarshalJSON(b []byte) error {
 	}
 	t.K = raw.K
 	switch raw.K {
-	case "str", "pkgunits":
+	case "str", "pkgunits", "fspecial", "bytes":
 		return json.Unmarshal(raw.V, &t.S)
 	case "num":
 		t.Rep = raw.Rep
@@ -265,6 +279,10 @@ func (t *Tree) writeCanon(sb *strings.Builder) {
 		sb.WriteString("nil")
 	case "pkgunits":
 		sb.WriteString("<units:" + t.S + ">")
+	case "fspecial":
+		sb.WriteString("<float:" + t.S + ">")
+	case "bytes":
+		sb.WriteString("<bytes:" + t.S + ">")
 	case "list":
 		sb.WriteString("[")
 		for i, e := range t.L {
@@ -366,6 +384,13 @@ func (t *Tree) toGo() any {
 		return nil
 	case "pkgunits":
 		return cloneVal(pkgUnitsDesc(t.S))
+	case "fspecial":
+		if t.S == "nan" {
+			return math.NaN()
+		}
+		return math.Inf(1)
+	case "bytes":
+		return cbor.ByteString(t.S) // (hashable, unlike []byte: it can be a map key)
 	case "list":
 		l := make([]any, len(t.L))
 		for i, e := range t.L {
